@@ -221,7 +221,10 @@ def diagnose(classes, packs):
                 return False
             seen.add((a, b))
             ca, cb = sp1.get(a), sp2.get(b)
-            if ca is None or cb is None or (ca, cb) not in mi[(a, b)]:
+            if ca is None or cb is None:
+                # a hole in the label maps is never produced by the short-cut: some other defect
+                raise LookupError((a, b))
+            if (ca, cb) not in mi[(a, b)]:
                 return True
             return any(bad_below(ca[i], cb[k], seen) for k, i in enumerate(mi[(a, b)][(ca, cb)]))
 
